@@ -16,7 +16,7 @@ Bin(o, l, r) == [k |-> "bin", o |-> o, l |-> l, r |-> r]
 F1(f, a) == [k |-> "f1", f |-> f, a |-> a]
 F2(f, a, b) == [k |-> "f2", f |-> f, a |-> a, b |-> b]
 Atoms == { Var("x"), Var("a"), Num("2.000"), Num("0.500") }
-UnOps == {"not", "neg", "uminus"}
+UnOps == {"not", "neg", "uminus", "uplus"}
 BinOps == {"pow", "mul", "div", "mod", "add", "sub", "and", "or"}
 Logical(t) == (t.k = "un" /\ t.o = "not") \/ (t.k = "bin" /\ t.o \in {"and", "or"})
 \* truth-valued results are used only under logical operators (or as the final result)
@@ -29,7 +29,7 @@ L1 == { Un(o, a) : o \in UnOps, a \in Atoms } \cup { Bin(o, l, r) : o \in BinOps
       \cup { F1(f, a) : f \in {"sin", "abs"}, a \in Atoms } \cup { F2(f, a, b) : f \in {"atan2", "max"}, a \in Atoms, b \in Atoms }
 \* second level over a reduced first level (x and one literal; one operator of every precedence level)
 A2 == { Var("x"), Num("2.000") }
-S1 == A2 \cup { Un(o, a) : o \in {"neg", "uminus"}, a \in A2 } \cup { Bin(o, l, r) : o \in {"pow", "mul", "mod", "sub", "and"}, l \in A2, r \in A2 }
+S1 == A2 \cup { Un(o, a) : o \in {"neg", "uminus", "uplus"}, a \in A2 } \cup { Bin(o, l, r) : o \in {"pow", "mul", "mod", "sub", "and"}, l \in A2, r \in A2 }
          \cup { F1("sin", a) : a \in A2 } \cup { F2("atan2", a, b) : a \in A2, b \in A2 }
 L2(o) == IF o \in UnOps THEN { Un(o, a) : a \in S1 }
          ELSE IF o \in BinOps THEN { Bin(o, l, r) : l \in S1, r \in S1 }
